@@ -68,7 +68,7 @@ OptNames == {"ignore_init_summary", "returns_multiple_items", "returns_named_val
 \* Generator[(a,b), (a,b), (a,b)], tuple[a, b], tuple[()], Generator[a], Generator[a, None], Iterator[a]: expressions with fewer
 \* elements than a docstring may document items / than _annotation_from_parent indexes (it runs under suppress(Exception))
 Parents == {"none", "module", "class", "function", "init", "property", "aliasmod", "tuplefn", "genfn", "tupleprop", "tuple0fn", "gen1fn", "gen2fn", "iterfn",
-            "detachedinit"}      \* detachedinit: a hand-built function named __init__ without any parent (not "__init__ in a class")
+            "detachedinit", "nsfunc"}      \* nsfunc: a function of a namespace package (filepath is a list) outside the cwd: warnings have no file prefix      \* detachedinit: a hand-built function named __init__ without any parent (not "__init__ in a class")
 PropParents == {"property", "tupleprop"}
 
 ItemKinds == {"parameters", "other_parameters", "raises", "warns", "functions", "classes", "modules", "attributes"}
